@@ -446,15 +446,16 @@ impl ZiPatch {
 
         PatchHeader::read(&mut file)?;
 
-        let mut target_info: Option<SqpkTargetInfo> = None;
+        // patches that do not carry a target info chunk are meant for Windows
+        let mut target_platform = Platform::Win32;
 
         let get_dat_path =
-            |target_info: &SqpkTargetInfo, main_id: u16, sub_id: u16, file_id: u32| -> String {
+            |target_platform: &Platform, main_id: u16, sub_id: u16, file_id: u32| -> String {
                 let filename = format!(
                     "{:02x}{:04x}.{}.dat{}",
                     main_id,
                     sub_id,
-                    get_platform_string(&target_info.platform),
+                    get_platform_string(target_platform),
                     file_id
                 );
                 let path: PathBuf = [
@@ -470,12 +471,12 @@ impl ZiPatch {
             };
 
         let get_index_path =
-            |target_info: &SqpkTargetInfo, main_id: u16, sub_id: u16, file_id: u32| -> String {
+            |target_platform: &Platform, main_id: u16, sub_id: u16, file_id: u32| -> String {
                 let mut filename = format!(
                     "{:02x}{:04x}.{}.index",
                     main_id,
                     sub_id,
-                    get_platform_string(&target_info.platform)
+                    get_platform_string(target_platform)
                 );
 
                 // index files have no special ending if it's file_id == 0
@@ -503,7 +504,7 @@ impl ZiPatch {
                     match pchunk.operation {
                         SqpkOperation::AddData(add) => {
                             let filename = get_dat_path(
-                                target_info.as_ref().unwrap(),
+                                &target_platform,
                                 add.main_id,
                                 add.sub_id,
                                 add.file_id,
@@ -526,7 +527,7 @@ impl ZiPatch {
                         }
                         SqpkOperation::DeleteData(delete) => {
                             let filename = get_dat_path(
-                                target_info.as_ref().unwrap(),
+                                &target_platform,
                                 delete.main_id,
                                 delete.sub_id,
                                 delete.file_id,
@@ -546,7 +547,7 @@ impl ZiPatch {
                         }
                         SqpkOperation::ExpandData(expand) => {
                             let filename = get_dat_path(
-                                target_info.as_ref().unwrap(),
+                                &target_platform,
                                 expand.main_id,
                                 expand.sub_id,
                                 expand.file_id,
@@ -570,13 +571,13 @@ impl ZiPatch {
                         SqpkOperation::HeaderUpdate(header) => {
                             let file_path = match header.file_kind {
                                 TargetFileKind::Dat => get_dat_path(
-                                    target_info.as_ref().unwrap(),
+                                    &target_platform,
                                     header.main_id,
                                     header.sub_id,
                                     header.file_id,
                                 ),
                                 TargetFileKind::Index => get_index_path(
-                                    target_info.as_ref().unwrap(),
+                                    &target_platform,
                                     header.main_id,
                                     header.sub_id,
                                     header.file_id,
@@ -666,7 +667,7 @@ impl ZiPatch {
                             debug!("PATCH: NOP PatchInfo");
                         }
                         SqpkOperation::TargetInfo(new_target_info) => {
-                            target_info = Some(new_target_info);
+                            target_platform = new_target_info.platform;
                         }
                         SqpkOperation::Index(_) => {
                             // Currently, there's nothing we need from Index command. Intentional NOP.
